@@ -4,6 +4,7 @@ to `∑`/functions, and closed forms of the model over ℝ.
 -/
 import Earverif.Model.Hoa
 import Mathlib.Analysis.Real.Sqrt
+import Mathlib.Analysis.SpecialFunctions.Trigonometric.Basic
 import Mathlib.Algebra.BigOperators.Fin
 import Mathlib.Algebra.BigOperators.Field
 import Mathlib.Tactic.Ring
@@ -18,9 +19,13 @@ namespace Earverif.Hoa
 noncomputable instance : Scalar ℝ where
   ofNat := fun n => (n : ℝ)
   sqrt := Real.sqrt
+  sin := Real.sin
+  cos := Real.cos
 
 @[simp] theorem scalar_ofNat (n : Nat) : (Scalar.ofNat n : ℝ) = (n : ℝ) := rfl
 @[simp] theorem scalar_sqrt (x : ℝ) : Scalar.sqrt x = Real.sqrt x := rfl
+@[simp] theorem scalar_sin (x : ℝ) : Scalar.sin x = Real.sin x := rfl
+@[simp] theorem scalar_cos (x : ℝ) : Scalar.cos x = Real.cos x := rfl
 
 theorem sumTo_eq {n : Nat} (f : Fin n → ℝ) : ∀ (k : Nat) (h : k ≤ n),
     sumTo n f k h = ∑ i : Fin k, f ⟨i.1, Nat.lt_of_lt_of_le i.2 h⟩
@@ -106,6 +111,90 @@ theorem meanPow_norm_free (G : Mat ℝ L P) (Y : Mat ℝ C P) (a b₁ b₂ : Vec
     meanPow G Y a b₁ w = meanPow G Y a b₂ w := by
   unfold meanPow
   simp only [dk_norm_free G Y a b₁ w ha h₁, dk_norm_free G Y a b₂ w ha h₂]
+
+/-! ### Non-zero denominators -/
+
+/-- the maxRE weight option `design` hands to `designW` -/
+noncomputable def wOpt {L : Nat} (o : Opts) (coef : Nat → ℝ) (ord : Vector Nat C) : Option (Vector ℝ C) :=
+  if o.maxRE then some (maxREWeights coef ord o.maxREScale L) else none
+
+theorem design_eq (o : Opts) (G : Mat ℝ L P) (Y : Mat ℝ C P) (a b : Vector ℝ C) (ord : Vector Nat C)
+    (coef : Nat → ℝ) (g : Vector ℝ C) (og : ℝ) (mute : Bool) :
+    design o G Y a b ord coef g og mute
+      = designW G Y a b (wOpt (L := L) o coef ord) o.normMeanPower g og mute := rfl
+
+/-- **Every denominator the computation divides by is non-zero** — the domain on which the model over ℝ and the same
+model over `Float` say the same thing (over ℝ `x/0 = 0`; over binary64 the same expression is `NaN`/`inf`):
+`len(points)`, the Frobenius norm `‖D·Y_virt‖`, the per-channel norm factors `norm_N3D`, `norm` (both are divided by:
+`norm_N3D/norm` in `allrad_design`, `norm/norm_N3D` inside `K_v`), `Σ a_n[n]²` when the maxRE weights are rescaled,
+and the mean power when `norm_mean_power` is on. -/
+structure NonDegenerate (o : Opts) (G : Mat ℝ L P) (Y : Mat ℝ C P) (nN3D nrm : Vector ℝ C) (ord : Vector Nat C)
+    (coef : Nat → ℝ) : Prop where
+  points : P ≠ 0
+  fro : froSq G Y ≠ 0
+  hn3d : ∀ c : Fin C, nN3D[c.1] ≠ 0
+  hnrm : ∀ c : Fin C, nrm[c.1] ≠ 0
+  sumsq : o.maxRE = true → o.maxREScale ≠ .none → (∑ c : Fin C, coef ord[c.1] * coef ord[c.1]) ≠ 0
+  meanPow : o.normMeanPower = true → meanPow G Y nN3D nrm (wOpt (L := L) o coef ord) ≠ 0
+
+/-- the rows of `Y` (one per channel) are linearly independent as functions of the sample point -/
+def RowsIndependent (Y : Mat ℝ C P) : Prop :=
+  ∀ a : Fin C → ℝ, (∀ p : Fin P, ∑ c, a c * Y.at c p = 0) → ∀ c, a c = 0
+
+theorem froSq_nonneg (G : Mat ℝ L P) (Y : Mat ℝ C P) : 0 ≤ froSq G Y :=
+  Finset.sum_nonneg fun _ _ => Finset.sum_nonneg fun _ _ => mul_self_nonneg _
+
+/-- `‖D·Y‖_F ≠ 0` as soon as the rows of `Y` are independent and `G·Yᵀ` has a non-zero entry. -/
+theorem froSq_ne_zero_of_indep (G : Mat ℝ L P) (Y : Mat ℝ C P) (hY : RowsIndependent Y)
+    (hD : ∃ l c, d0 G Y l c ≠ 0) : froSq G Y ≠ 0 := by
+  obtain ⟨l₀, c₀, h0⟩ := hD
+  intro hz
+  unfold froSq at hz
+  rw [Finset.sum_eq_zero_iff_of_nonneg (fun _ _ => Finset.sum_nonneg fun _ _ => mul_self_nonneg _)] at hz
+  have hl := hz l₀ (Finset.mem_univ _)
+  rw [Finset.sum_eq_zero_iff_of_nonneg (fun _ _ => mul_self_nonneg _)] at hl
+  exact h0 (hY (fun c => d0 G Y l₀ c) (fun p => mul_self_eq_zero.mp (hl p (Finset.mem_univ _))) c₀)
+
+theorem sc_ne_zero (G : Mat ℝ L P) (Y : Mat ℝ C P) (hP : P ≠ 0) (hf : froSq G Y ≠ 0) : sc G Y ≠ 0 := by
+  unfold sc
+  have h1 : (0 : ℝ) < (P : ℝ) := by exact_mod_cast Nat.pos_of_ne_zero hP
+  have h2 : 0 < froSq G Y := lt_of_le_of_ne (froSq_nonneg G Y) (Ne.symm hf)
+  exact div_ne_zero (Real.sqrt_pos.mpr h1).ne' (Real.sqrt_pos.mpr h2).ne'
+
+/-- The mean power is non-zero as soon as, in addition, some non-zero entry of `G·Yᵀ` sits in a column whose maxRE
+weight is non-zero (always, when maxRE is off). -/
+theorem meanPow_ne_zero_of_indep (G : Mat ℝ L P) (Y : Mat ℝ C P) (a b : Vector ℝ C) (w : Option (Vector ℝ C))
+    (hP : P ≠ 0) (hY : RowsIndependent Y) (ha : ∀ c : Fin C, a[c.1] ≠ 0) (hb : ∀ c : Fin C, b[c.1] ≠ 0)
+    (hD : ∃ l c, d0 G Y l c ≠ 0 ∧ wOf w c ≠ 0) : meanPow G Y a b w ≠ 0 := by
+  obtain ⟨l₀, c₀, h0, hw0⟩ := hD
+  have hf := froSq_ne_zero_of_indep G Y hY ⟨l₀, c₀, h0⟩
+  have hs := sc_ne_zero G Y hP hf
+  intro hz
+  unfold meanPow at hz
+  have hPr : (P : ℝ) ≠ 0 := by exact_mod_cast hP
+  rw [div_eq_zero_iff, or_iff_left hPr,
+    Finset.sum_eq_zero_iff_of_nonneg (fun _ _ => Finset.sum_nonneg fun _ _ => mul_self_nonneg _)] at hz
+  have key : ∀ p : Fin P, ∑ c, (d0 G Y l₀ c * sc G Y * wOf w c) * Y.at c p = 0 := by
+    intro p
+    have hp := hz p (Finset.mem_univ _)
+    rw [Finset.sum_eq_zero_iff_of_nonneg (fun _ _ => mul_self_nonneg _)] at hp
+    have := mul_self_eq_zero.mp (hp l₀ (Finset.mem_univ _))
+    rwa [dk_norm_free G Y a b w ha hb] at this
+  have := hY _ key c₀
+  exact mul_ne_zero (mul_ne_zero h0 hs) hw0 this
+
+/-- **`NonDegenerate` from conditions on the inputs**: at least one sample point, independent rows of `Y`, non-zero
+norm factors, a non-zero entry of `G·Yᵀ` in a column with non-zero maxRE weight, and (only when the maxRE weights are
+rescaled) `Σ a_n[n]² ≠ 0`. -/
+theorem nonDegenerate_of_indep (o : Opts) (G : Mat ℝ L P) (Y : Mat ℝ C P) (nN3D nrm : Vector ℝ C)
+    (ord : Vector Nat C) (coef : Nat → ℝ) (hP : P ≠ 0) (hY : RowsIndependent Y)
+    (hN : ∀ c : Fin C, nN3D[c.1] ≠ 0) (hn : ∀ c : Fin C, nrm[c.1] ≠ 0)
+    (hD : ∃ l c, d0 G Y l c ≠ 0 ∧ wOf (wOpt (L := L) o coef ord) c ≠ 0)
+    (hs : o.maxRE = true → o.maxREScale ≠ .none → (∑ c : Fin C, coef ord[c.1] * coef ord[c.1]) ≠ 0) :
+    NonDegenerate o G Y nN3D nrm ord coef := by
+  obtain ⟨l₀, c₀, h0, hw0⟩ := hD
+  exact ⟨hP, froSq_ne_zero_of_indep G Y hY ⟨l₀, c₀, h0⟩, hN, hn, hs,
+    fun _ => meanPow_ne_zero_of_indep G Y nN3D nrm _ hP hY hN hn ⟨l₀, c₀, h0, hw0⟩⟩
 
 end closed
 
@@ -207,6 +296,23 @@ theorem maxREWeights_perm (σ : Equiv.Perm (Fin C)) (coef : Nat → ℝ) (ord : 
     (apply Vector.ext; intro i hi
      simp only [maxREWeights, finSum_eq, hs, maxOrd_perm]
      simp [permV])
+
+theorem wOpt_perm (σ : Equiv.Perm (Fin C)) (o : Opts) (coef : Nat → ℝ) (ord : Vector Nat C) :
+    wOpt (L := L) o coef (permV σ ord) = (wOpt (L := L) o coef ord).map (permV σ) := by
+  unfold wOpt
+  split <;> simp [maxREWeights_perm]
+
+/-- the non-zero-denominator conditions do not depend on the order of the channels -/
+theorem NonDegenerate.perm {o : Opts} {G : Mat ℝ L P} {Y : Mat ℝ C P} {a b : Vector ℝ C} {ord : Vector Nat C}
+    {coef : Nat → ℝ} (h : NonDegenerate o G Y a b ord coef) (σ : Equiv.Perm (Fin C)) :
+    NonDegenerate o G (permV σ Y) (permV σ a) (permV σ b) (permV σ ord) coef := by
+  refine ⟨h.points, by rw [froSq_perm]; exact h.fro, fun c => by rw [permV_get]; exact h.hn3d (σ c),
+    fun c => by rw [permV_get]; exact h.hnrm (σ c), fun h1 h2 => ?_, fun h1 => ?_⟩
+  · simp only [permV_get]
+    rw [Equiv.sum_comp σ (fun c => coef ord[c.1] * coef ord[c.1])]
+    exact h.sumsq h1 h2
+  · rw [wOpt_perm, meanPow_perm]
+    exact h.meanPow h1
 
 end perm
 
